@@ -1,6 +1,8 @@
 /-
   Cello/Str.lean — executable model of the heap `String` of src/String.c (as it is in /repo now, after fixes 62eac2a,
-  e60e6ec `String_Rem` takes `c_str(obj)` first, a626877 `String_Format_To` returns a negative size untouched),
+  e60e6ec `String_Rem` takes `c_str(obj)` first, a626877 `String_Format_To` returns a negative size untouched,
+  744a45f `String_Assign` returns at once when `c_str(obj)` is `s->val`, 63509f2 `String_Resize` tests the result of
+  `realloc` before writing through it — both read from the source: `Params.assignSelfReturns`, `Params.resizeChecksFirst`),
   and the specification it is proved against (CelloProofs/Props/C16.lean): the abstract byte string `List UInt8`
   without NUL, manipulated with list functions.
 
@@ -25,7 +27,9 @@
     into the target's allocation (`Src.self`: `obj` is the target; `Src.view off`: `obj` is e.g. `$S(c_str(s) + off)`) are
     modelled by `assignA / concatA / formatA / remA` and the histories `AOp / stepA / runA`: `realloc` may move the block
     (`mv`), the old block is then freed and a read through the stale pointer is the outcome `ub` (known finding
-    KF-C16-alias-operand; CelloProofs/Props/C16.lean `C16_alias_*`).
+    KF-C16-alias-operand; CelloProofs/Props/C16.lean `C16_alias_*`).  Which of these calls the code defines is the decidable
+    predicate `AOp.InContract` (everything but the finding's territory); histories of such calls: `HistOK`, `Spec.runA`.
+  * Allocation failure is an outcome for `String_Resize` (`resizeFail`, `resizeR`): OutOfMemoryError, `val == NULL` afterwards.
 -/
 namespace Cello.Str
 
@@ -51,8 +55,14 @@ structure Params where
   /-- `String_Rem`: `count = strlen(pos) - strlen(c->c_str(obj)) + 1` as a function of
       `strlen(self)`, `strlen(pos)`, `strlen(obj)` (the pre-fix formula also used `strlen(self)`) -/
   remCount : Nat → Nat → Nat → Nat
+  /-- `String_Assign`: does `if (val is s->val) { return; }` stand between `char* val = c_str(obj);` and the `realloc`
+      (fix 744a45f)?  Then an operand whose C string IS the target's buffer leaves the call before anything is touched. -/
+  assignSelfReturns : Bool
+  /-- `String_Resize`: does the `CELLO_MEMORY_CHECK` test `if (s->val is NULL) throw(OutOfMemoryError, …)` stand directly
+      after the `realloc`, before the `memset` / terminator store (fix 63509f2)? -/
+  resizeChecksFirst : Bool
 
-/-- the arithmetic this model was written against (src/String.c after 62eac2a) -/
+/-- the arithmetic this model was written against (src/String.c after 62eac2a, 744a45f, 63509f2) -/
 def Params.modelled : Params where
   newEmptySize := 1
   assignSize lv := lv + 1
@@ -61,6 +71,14 @@ def Params.modelled : Params where
   resizeSize n := n + 1
   formatSize pos size := pos + size + 1
   remCount _ lp lo := lp - lo + 1
+  assignSelfReturns := true
+  resizeChecksFirst := true
+
+/-- `String_Assign` before 744a45f: no early return — `assign(s, s)` reallocates and then copies from the old pointer -/
+def Params.assignUnguarded : Params := { Params.modelled with assignSelfReturns := false }
+
+/-- `String_Resize` before 63509f2: the NULL test came after the `memset` / terminator store -/
+def Params.resizeChecksLate : Params := { Params.modelled with resizeChecksFirst := false }
 
 /-- the byte count of `String_Rem` before fix 62eac2a: `strlen(self) - strlen(pos) - strlen(obj) + 1` -/
 def Params.preFix : Params := { Params.modelled with remCount := fun ls lp lo => ls - lp - lo + 1 }
@@ -74,9 +92,11 @@ structure Params.Lawful (P : Params) : Prop where
   resize : ∀ n, P.resizeSize n = n + 1
   format : ∀ pos size, P.formatSize pos size = pos + size + 1
   rem : ∀ ls lp lo, lo ≤ lp → P.remCount ls lp lo = lp - lo + 1
+  assignSelf : P.assignSelfReturns = true
+  resizeCheck : P.resizeChecksFirst = true
 
 theorem Params.modelled_lawful : Params.modelled.Lawful :=
-  ⟨rfl, fun _ => rfl, rfl, fun _ _ => rfl, fun _ => rfl, fun _ _ => rfl, fun _ _ _ _ => rfl⟩
+  ⟨rfl, fun _ => rfl, rfl, fun _ _ => rfl, fun _ => rfl, fun _ _ => rfl, fun _ _ _ _ => rfl, rfl, rfl⟩
 
 /-! ## libc over a buffer -/
 
@@ -158,6 +178,7 @@ inductive Exc where
   | ValueError
   | ClassError      -- `c_str(obj)` on an object whose type has no C_Str instance (`String_Rem` after e60e6ec)
   | FormatError     -- `print_to_with`: a `format_to` returned a negative value
+  | OutOfMemoryError -- `realloc` returned NULL (`CELLO_MEMORY_CHECK`)
 deriving Repr, DecidableEq, Inhabited
 
 /-- why a call has undefined behaviour -/
@@ -165,6 +186,7 @@ inductive UB where
   | useAfterFree            -- a read through a pointer into the block that `realloc` has freed
   | overlap                 -- `strcpy` / `strcat` / `vsprintf` between overlapping objects (ISO C 7.24.2.3, 7.24.3.1, 7.21.6.6)
   | outOfBounds             -- a read or a write outside the allocation current at that moment
+  | nullDeref               -- a write through the NULL pointer a failed `realloc` returned
 deriving Repr, DecidableEq, Inhabited
 
 inductive Outcome where
@@ -236,6 +258,23 @@ def resize (P : Params) (J : Nat → Byte) (s : Str) (n : Nat) : Res :=
   else
     { st := ⟨writeAt b1 n [0]⟩, out := .ok 0,
       log := [.rd 0 (m + 1) s.buf.length, .wr n 1 b1.length] }
+
+/-- `String_Resize(self, n)` when `realloc` returns NULL (ISO C 7.22.3.5: the old block is then NOT freed).  The statement is
+    `s->val = realloc(s->val, n+1);` — the result goes straight into `s->val`, so the only pointer to the old block is
+    overwritten with NULL before anything is tested.  After 63509f2 the next statement is
+    `if (s->val is NULL) { throw(OutOfMemoryError, …); }`: the exception leaves, nothing was written; the object is left with
+    `val == NULL` (`buf = []`, the state of a zeroed object: not a C string — a later `len` / `c_str` / `cmp` would read
+    through NULL) and the old block, still allocated, is unreachable (leaked).  Before the fix (`resizeChecksFirst = false`)
+    the `memset(&s->val[m], 0, n - m)` / `s->val[n] = '\0'` came first: a write through NULL + offset. -/
+def resizeFail (P : Params) (s : Str) (n : Nat) : Res :=
+  let m := strlen s.buf 0                                             -- `size_t m = String_Len(self);` ran before the realloc
+  let lg := [Acc.rd 0 (m + 1) s.buf.length]
+  if P.resizeChecksFirst then { st := ⟨[]⟩, out := .raised .OutOfMemoryError, log := lg }
+  else { st := ⟨[]⟩, out := .ub .nullDeref, log := lg ++ [if n > m then .wr m (n - m) 0 else .wr n 1 0] }
+
+/-- `String_Resize` for both results of its `realloc`: `fails` = it returned NULL -/
+def resizeR (P : Params) (J : Nat → Byte) (s : Str) (n : Nat) (fails : Bool) : Res :=
+  if fails then resizeFail P s n else resize P J s n
 
 /-- `String_Rem(self, obj)` with `sub = c_str(obj) = x`:
     `pos = strstr(val, sub); if (pos is NULL) throw(ValueError …);
@@ -360,7 +399,8 @@ inductive Src where
   | view (off : Nat)
 deriving Repr, DecidableEq, Inhabited
 
-/-- **the decidable hypothesis of the main theorems**: the operand's bytes do not lie in the target's allocation -/
+/-- the operand's bytes do not lie in the target's allocation (the hypothesis of the history theorems is `AOp.InContract`,
+    which asks this of `concat` / `append` / `%s` operands only) -/
 def Src.Disjoint : Src → Prop
   | .val _ => True
   | _ => False
@@ -405,11 +445,16 @@ def assignAt (P : Params) (J : Nat → Byte) (mv : Bool) (s : Str) (off : Nat) :
         { st := ⟨writeAt b1 0 (cstrAt b1 off ++ [0])⟩, out := .ok 0,
           log := lg ++ [.rd off (n' + 1) b1.length, .wr 0 (n' + 1) b1.length] }
 
-/-- `String_Assign(self, obj)` for every operand form -/
+/-- `String_Assign(self, obj)` for every operand form:
+    `char* val = c_str(obj);  if (val is s->val) { return; }  … realloc … strcpy(s->val, val);`
+    — since 744a45f an operand whose C string starts at the first byte of the target's buffer (`obj` is the target itself, or
+    a view at offset 0: `$S(c_str(s))`) leaves the call at once: nothing is reallocated, read or written.  A view at an
+    offset > 0 is a different pointer: it goes on to the `realloc` as before (`assignAt`). -/
 def assignA (P : Params) (J : Nat → Byte) (mv : Bool) (s : Str) : Src → Res
   | .val x => assign P J s x
-  | .self => assignAt P J mv s 0
-  | .view off => assignAt P J mv s off
+  | src =>
+    if P.assignSelfReturns && src.off == 0 then { st := s, out := .ok 0, log := [] }
+    else assignAt P J mv s src.off
 
 /-- `strcat(buf, buf + o)` inside ONE block: destination string at 0, source string at `o`; the source (with its
     terminator) must not overlap the resulting destination string (ISO C 7.24.3.1) -/
@@ -494,7 +539,8 @@ inductive AOp where
   | formatS (pos : Nat) (src : Src)           -- `format_to(s, pos, "%s", c_str(obj))`: the `%s` step of `print_to(s, pos, …, obj)`
 deriving Repr, DecidableEq, Inhabited
 
-/-- no operand of the operation points into the target's allocation -/
+/-- no operand of the operation points into the target's allocation (every operand by value: the state-independent special
+    case of `AOp.InContract`, `histOK_of_noAlias`) -/
 def AOp.NoAlias : AOp → Prop
   | .assign src | .concat src | .append src | .rem src | .formatS _ src => src.Disjoint
   | _ => True
@@ -515,6 +561,41 @@ def AOp.toOp (s : Str) : AOp → Op
 
 /-- for operands given by value the target plays no part in `toOp` -/
 def AOp.plain (op : AOp) : Op := op.toOp ⟨[]⟩
+
+/-- the bytes the operand denotes, in terms of the target's TEXT `a` (for a view: `off ≤ |a|`) -/
+def Src.readAbs (a : List Byte) : Src → List Byte
+  | .val x => x
+  | .self => a
+  | .view off => a.drop off
+
+/-- the same operation with its operand by value, read from the target's text `a` -/
+def AOp.absOp (a : List Byte) : AOp → Op
+  | .assign src => .assign (src.readAbs a)
+  | .concat src => .concat (src.readAbs a)
+  | .append src => .append (src.readAbs a)
+  | .resize n => .resize n
+  | .clear => .clear
+  | .rem src => .rem (src.readAbs a)
+  | .format pos f => .format pos f
+  | .formatS pos src => .format pos (src.readAbs a)
+
+/-- **the decidable hypothesis of the history theorems**, given the target's text `a` when the call is made: the call is not
+    in the territory of known finding KF-C16-alias-operand, and a view used as an operand points into the text.
+    * `assign`: the operand is by value, the target itself, or a view at offset 0 (`val is s->val`: early return, 744a45f) —
+      excluded: a view at an offset > 0;
+    * `concat` / `append` / a `%s` write: the operand is by value — excluded: the target itself and every view;
+    * `rem`: ANY operand form (no `realloc`, all reads before the one `memmove`); a view must start inside the text or at its
+      terminator (`off ≤ len`; behind that it is not a C string inside the block);
+    * `resize`, `clear`, a formatted write without aliasing arguments: always.
+    `C16_contract_is_exact`: what this excludes is undefined for every allocator behaviour, what it allows is defined. -/
+def AOp.InContract (a : List Byte) : AOp → Prop
+  | .assign src => src.Disjoint ∨ src.off = 0
+  | .concat src | .append src | .formatS _ src => src.Disjoint
+  | .rem src => src.off ≤ a.length
+  | _ => True
+
+instance (a : List Byte) (op : AOp) : Decidable (op.InContract a) := by
+  cases op <;> simp only [AOp.InContract] <;> infer_instance
 
 /-- one step; `mv` = does `realloc` move the block in this call (the allocator's choice) -/
 def stepA (P : Params) (J : Nat → Byte) (mv : Bool) (s : Str) : AOp → Res
@@ -689,7 +770,25 @@ def run (a : List Byte) : List Op → List Byte
   | [] => a
   | op :: ops => run (step a op) ops
 
+/-- the abstract effect of an operation whose operand may be the target itself or a view into it: the operand is the text
+    (or its suffix from `off`) at the moment of the call -/
+def runA (a : List Byte) : List AOp → List Byte
+  | [] => a
+  | op :: ops => runA (step a (op.absOp a)) ops
+
 end Spec
+
+/-- every call of the history is in contract (`AOp.InContract`) for the text the target holds when the call is made
+    (computed by the specification, not by the code) -/
+def HistOK : List Byte → List AOp → Prop
+  | _, [] => True
+  | a, op :: ops => op.InContract a ∧ HistOK (Spec.step a (op.absOp a)) ops
+
+instance : (a : List Byte) → (ops : List AOp) → Decidable (HistOK a ops)
+  | _, [] => isTrue trivial
+  | a, op :: ops =>
+    have := instDecidableHistOK (Spec.step a (op.absOp a)) ops
+    inferInstanceAs (Decidable (op.InContract a ∧ HistOK (Spec.step a (op.absOp a)) ops))
 
 /-! ## formatted writes through `print_to_with` / `show_to` (src/Show.c): the position bookkeeping
 
